@@ -3,6 +3,7 @@ package main
 import (
 	"errors"
 	"fmt"
+	"io"
 	"reflect"
 	"strings"
 
@@ -66,6 +67,10 @@ const (
 	KByteArr // [3]byte
 	KDuration
 	KBuilder // *StringBuilder with content
+	KSafeStringer // SafeValue-marked type with a String method
+	KMapIfaceKey  // map[interface{}]string with a nil key, keys of several kinds
+	KMapStructKey // map with struct keys holding interface fields (one nil)
+	KFormatterWS  // fmt.Formatter writing through io.WriteString (the io.StringWriter fast path)
 	kindCount
 )
 
@@ -85,6 +90,11 @@ type MyInt int
 type SafeStr string
 
 func (SafeStr) SafeValue() {}
+
+type safeStrg struct{ s string }
+
+func (s safeStrg) SafeValue()     {}
+func (s safeStrg) String() string { return "SS(" + s.s + ")" }
 
 type RegInt int
 type RegStruct struct {
@@ -109,6 +119,14 @@ type fmtr struct{ s string }
 func (f fmtr) Format(st fmt.State, verb rune) {
 	w, wok := st.Width()
 	fmt.Fprintf(st, "FMT[%c|%v,%v|%s]", verb, w, wok, f.s)
+}
+
+type fmtrWS struct{ s string }
+
+func (f fmtrWS) Format(st fmt.State, verb rune) {
+	io.WriteString(st, "WS[")
+	io.WriteString(st, f.s)
+	st.Write([]byte("]"))
 }
 
 type safeFmtr struct {
@@ -184,7 +202,7 @@ func unsafeInt(id, inst int) int {
 	}
 	return 9035077 + id*101
 }
-func safeStr(id int) string { return fmt.Sprintf("sfok%d", id) }
+func safeStr(id int) string { return fmt.Sprintf("sfok%dz", id) }
 func safeInt(id int) int    { return 3100 + id }
 
 var theChan = make(chan int)
@@ -330,6 +348,18 @@ func (v *Val) build(inst int) interface{} {
 		return [3]byte{s[0], s[1], s[2]}
 	case KDuration:
 		return dur(unsafeInt(v.ID, inst))
+	case KSafeStringer:
+		return safeStrg{safeStr(v.ID)}
+	case KFormatterWS:
+		return fmtrWS{unsafeStr(v.ID, inst)}
+	case KMapIfaceKey:
+		return map[interface{}]string{nil: unsafeStr(v.ID, inst), 1: "one", "k": unsafeStr(v.ID+1, inst), 2.5: "f", true: "t"}
+	case KMapStructKey:
+		type key struct {
+			N int
+			I interface{}
+		}
+		return map[key]int{{1, nil}: 1, {1, "x"}: unsafeInt(v.ID, inst), {0, 3}: 3, {1, 7}: 4}
 	case KBuilder:
 		var b redact.StringBuilder
 		b.SafeString(redact.SafeString(safeStr(v.ID)))
@@ -404,13 +434,13 @@ func (v *Val) panics() bool { return v.hasKind(KPanicStringer, KPanicError, KPan
 
 // ownClass: the value (or a part of it) has a classification of its own.
 func (v *Val) ownClass() bool {
-	return v.hasKind(KSafeStr, KSafeInt, KSafeFormatter, KSafeMessager, KPanicSafeFormatter, KSafe, KUnsafe, KRedactable, KRedactableB, KBuilder)
+	return v.hasKind(KSafeStringer, KSafeStr, KSafeInt, KSafeFormatter, KSafeMessager, KPanicSafeFormatter, KSafe, KUnsafe, KRedactable, KRedactableB, KBuilder)
 }
 
 var leafKinds = []VKind{KNil, KBool, KInt, KInt8, KUint16, KUint64, KUintptr, KFloat, KComplex, KString, KBytes, KNamedStr, KNamedInt,
 	KSafeStr, KSafeInt, KRegInt, KRegStruct, KErr, KStringer, KPStringer, KNilStringer, KGoStringer, KFormatter, KSafeFormatter, KSafeMessager,
 	KErrFormatter, KErrStringer, KPanicStringer, KPanicError, KPanicSafeFormatter, KPtrStruct, KNilPtr, KIntPtr, KStrSlice, KIntArr, KMapKeyed,
-	KRedactable, KRedactableB, KChan, KFunc, KByteArr, KDuration, KBuilder}
+	KRedactable, KRedactableB, KChan, KFunc, KByteArr, KDuration, KBuilder, KSafeStringer, KFormatterWS, KMapIfaceKey, KMapStructKey}
 
 var redactPool = []string{"", "plain", "‹x›", "a ‹b› c", "‹a›\n‹b›", "?‹?›", "‹×›", "‹ ›x\n", "pre‹u1›mid‹u2›post", "‹q?z›"}
 
@@ -476,7 +506,7 @@ func (v *Val) String() string {
 		KPanicSafeFormatter: "panicSafeFormatter", KPtrStruct: "*struct", KNilPtr: "nil*struct", KIntPtr: "*int", KReflectValue: "reflect.Value",
 		KSafe: "Safe", KUnsafe: "Unsafe", KSlice: "[]any", KStrSlice: "[]string", KIntArr: "[2]int", KMap: "map", KMapKeyed: "map[MyStr]int",
 		KStruct: "struct", KRedactable: "RedactableString", KRedactableB: "RedactableBytes", KChan: "chan", KFunc: "func", KByteArr: "[3]byte",
-		KDuration: "dur", KBuilder: "*StringBuilder"}
+		KDuration: "dur", KBuilder: "*StringBuilder", KSafeStringer: "SafeStringer", KFormatterWS: "FormatterWS", KMapIfaceKey: "map[any]string", KMapStructKey: "map[struct]int"}
 	s := names[v.K]
 	if v.K == KRedactable || v.K == KRedactableB {
 		s += fmt.Sprintf("%q", v.R)
